@@ -9,8 +9,13 @@ patch = os.path.join(d, "patch.diff")
 assert subprocess.run(["git", "-C", "/repo", "status", "--porcelain"], capture_output=True, text=True).stdout.strip() == "", "/repo not clean"
 r = subprocess.run(["git", "-C", "/repo", "apply", patch], capture_output=True, text=True)
 if r.returncode != 0:
-    print("patch does not apply:", r.stderr)
-    sys.exit(2)
+    # the patch was written against an earlier commit of /repo (see meta.json "base"): merge it onto the current tree
+    r = subprocess.run(["git", "-C", "/repo", "apply", "--3way", patch], capture_output=True, text=True)
+    subprocess.run(["git", "-C", "/repo", "reset", "-q"], capture_output=True)   # keep the change in the working tree only
+    if r.returncode != 0:
+        subprocess.run(["git", "-C", "/repo", "checkout", "--", "."])
+        print("patch does not apply:", r.stderr)
+        sys.exit(2)
 res = {}
 # evidence/ and replays/ describe the unchanged tree; keep them out of the way while the patch is applied
 import shutil, tempfile
